@@ -490,6 +490,9 @@ def _run_yamljson(case):
                           f"{_js(loaded[ref_key][1])}"))
         if not R.same(val, obj):
             roundtrip = False
+            if case.get("strict"):       # string-leaf probes: the leaf must arrive intact in every spelling
+                viol.append(V(f"c16:yamljson:string-leaf-changed:{k[0]}:{case.get('where', '')}",
+                              f"{case['name']}: settings{k[0]} (validate={k[1]}) loads as {_js(val)}, the file spells {_js(obj)}"))
     return {"viol": viol, "outcome": "yamljson:" + ("identical" if not viol else "differ") +
             ("" if roundtrip else ":not-the-dumped-object(unasserted)"), "key": "yj:" + case["name"]}
 
@@ -997,6 +1000,41 @@ YJ_VALUES = [0, 1, -3, 10 ** 12, 0.5, 1.2, 1.0e-8, 1e20, 3.0, -2.5e-3, True, Fal
 YJ_KEYS = ["yes", "no", "1", "1.5", "null", "~", "a b", "true", "on", "", "ü", "a:b", "#", "-"]
 
 
+YJ_STRINGS = [
+    # '//' and '/* */' (what a JSON "comment" stripper would eat), alone, inside paths, URLs, globs
+    "a//b", "../shared//input01", "out//v_s.txt", "file:///data/x", "https://host//p", "//", "// lead", "trail //", "a // b",
+    "x/*y*/z", "*/", "/*", "/**/", "/* c */", "x /* y", "y */ z", "*.dat/*.txt and a/*/b", "a//b/*c*/d//e", "a/*b//c*/d",
+    # YAML-sensitive content
+    "#", "a # b", "#lead", "%", "50%", "%TAG", "a: b", ": ", "a:", "- ", "- a", "a - b", "{}", "{a}", "a{b}c", "{a: b}", "[a]", "a, b",
+    # backslashes, quotes
+    "\\", "a\\b", "C:\\dir\\file", "\\n", "\\\"", "\"", "\"q\"", "'", "'q'", "it's", "a\"b'c", "\"a//b\"",
+    # blanks, control characters, unicode
+    " lead", "trail ", " both ", "  ", "tab\there", "multi\nline", "line//\n//two", "ü/ß", "日本/データ", "é//è", "\u00a0nbsp", "\u2028sep",
+]
+
+
+def _string_positions(base, s_):
+    """The configuration `base` with the string s_ at each string-typed place: the two documented file-name
+    fields, an output list item, a free-form output value, and an output key."""
+    out = []
+    out.append(("qha.input", R.set_path(base, ("qha", "input"), s_)))
+    out.append(("elast.input", R.set_path(base, ("elast", "input"), s_)))
+    out.append(("output.pressure_base[0]", R.set_path(base, ("output", "pressure_base"), [s_, "cij"])))
+    out.append(("output.fname", R.set_path(base, ("output", "fname"), {"vs": s_, "vp": "plain.txt"})))
+    out.append(("output.<key>", R.set_path(base, ("output", s_), "as-key")))
+    return out
+
+
+def yamljson_string_cases():
+    base = R.packaged_defaults()
+    cases = []
+    for i, s_ in enumerate(YJ_STRINGS):
+        for where, obj in _string_positions(base, s_):
+            cases.append({"kind": "yamljson", "name": f"string[{i}]={s_!r}@{where}", "obj": obj, "valid": True,
+                          "strict": True, "where": where})
+    return cases
+
+
 def yamljson_cases():
     cases = []
     D = R.packaged_defaults()
@@ -1097,6 +1135,9 @@ def explore(ctx):
         "cij/data/default/settings.yaml, data/default/settings.yaml, settings.yaml; a permissive / an all-rejecting schema "
         "at schema/config.schema.json, cij/data/schema/..., data/schema/..., config.schema.json; all at once; none): "
         "results must be those of the reference (packaged defaults, packaged schema). "
+        "yamljson-string-leaves: every string of an alphabet of '//', '/* */', '#', '%', ': ', '- ', braces, quotes, "
+        "backslashes, blanks, control characters and unicode at every string-typed place (qha.input, elast.input, an output "
+        "list item, a free-form output value, an output key) in .json/.yaml/.yml: identical and the leaf intact. "
         "yamljson: shipped/effective configurations and one probe per scalar kind and YAML-sensitive string. history: "
         "all sequences of length 1..3 over 11 operations on shared objects. A case is non-trivial when: merge - the "
         "user dict is non-empty; apply - at least one input ran; validate - the verdict is asserted by the table "
@@ -1172,6 +1213,8 @@ def explore(ctx):
 
     ycases = yamljson_cases()
     ctx.run(MOD, "run_case", ycases, part="yamljson", transitions=4 * len(ycases))
+    zcases = yamljson_string_cases()
+    ctx.run(MOD, "run_case", zcases, part="yamljson-string-leaves", transitions=6 * len(zcases))
     scases = [dict(c, kind="yamlspell") for c in yaml_spellings()]
     ctx.run(MOD, "run_case", scases, part="yaml-anchors-merge-keys", transitions=6 * len(scases))
 
@@ -1193,7 +1236,7 @@ def explore(ctx):
         "apply_conflict_values": len(CONFLICT_VALUES),
         "validate_bases": len(R.SHIPPED_REL), "validate_fields": len(R.FIELDS), "validate_perturbations": len(perts),
         "validate_by_expectation": dict(Counter(p["expect"] for p in perts)),
-        "yamljson_objects": len(ycases), "yaml_spellings": len(scases), "cwd_layouts": len(cwd_layouts()), "history_ops": len(H_OPS), "history_max_len": 3, "history_sequences": len(hcases),
+        "yamljson_objects": len(ycases), "yaml_spellings": len(scases), "yamljson_strings": len(YJ_STRINGS), "yamljson_string_cases": len(zcases), "cwd_layouts": len(cwd_layouts()), "history_ops": len(H_OPS), "history_max_len": 3, "history_sequences": len(hcases),
     }
 
 
@@ -1316,6 +1359,11 @@ def selftest():
                         env={k: v for k, v in os.environ.items() if k != "PYTHONPATH"})
     chk(pr.returncode == 0 and pr.stdout.strip() == "[]", f"pristine PyYAML disagrees with the constructed expansions: {pr.stdout} {pr.stderr[-300:]}")
     chk(any("<<: *fine, NT: 81" in c["yaml"] for c in sp), "the flow spelling with an overridden merged key is enumerated")
+    chk(len(set(YJ_STRINGS)) == len(YJ_STRINGS) and len(YJ_STRINGS) > 60 and "a//b" in YJ_STRINGS and "x/*y*/z" in YJ_STRINGS
+        and "\\" in YJ_STRINGS and "file:///data/x" in YJ_STRINGS, "string alphabet")
+    zc = yamljson_string_cases()
+    chk(len(zc) == 5 * len(YJ_STRINGS) and all(R.get_path(c["obj"], ("qha", "input")) is not R.ABSENT for c in zc), "string probe cases")
+    chk(R.get_path(zc[0]["obj"], ("qha", "input")) == "a//b" and R.get_path(zc[4]["obj"], ("output", "a//b")) == "as-key", "string positions")
     lay = cwd_layouts()
     chk(len(lay) == 16 and lay["empty"] == [] and len(lay["all-decoys-permissive"]) == 8, "cwd layouts")
     import yaml as _y
